@@ -49,6 +49,10 @@ pub open spec fn native_hash<F: Field>(xs: Seq<F>, rate: int, width: int) -> Seq
     sponge_n(zeros::<F>(width as nat), xs, rate, nchunks(xs.len() as int, rate) as nat).take(rate)
 }
 
+/// AIR fact (poseidon{1,2}-circuit-air eval): only the compact D=1 branch has the constraint `new_start && !merkle => capacity inputs == (tag, 0, ..)`;
+/// the extension-mode branch leaves an omitted limb of a chain-start row unconstrained
+pub open spec fn chain_start_capacity_zero_asserted(cfg: &PermConfig) -> bool { cfg.dd == 1 }
+
 // ---------------------------------------------------------------- one permutation-table row (ASSUMED; executor.rs)
 /// the state a row permutes: given limbs from the bus, omitted limbs zero on a chain start, else the previous row's output
 pub open spec fn row_in<F: Field>(cb: &CircuitBuilder<F>, inputs: Seq<Option<ExprId>>, new_start: bool) -> Seq<F> {
@@ -225,7 +229,11 @@ def finish(u, h):
         ('ctx', ('(last_rate_outputs matches Some(o) ==> o@.len() == rate_ext) && ' if has_last else '') + 'is_first == (i == 0)'),
         ('filled', f'inputs@.len() == width_ext && chunk@.len() <= rate_ext <= width_ext && (forall|q: int| 0 <= q < chunk@.len() ==> #[trigger] inputs@[q] == Some(chunk@[q]))'
                    f' && (forall|q: int| chunk@.len() <= q < {pv} ==> #[trigger] inputs@[q] == Some({FILL})) && (forall|q: int| {pv} <= q < width_ext && q >= chunk@.len() ==> (#[trigger] inputs@[q]) is None)')])
-    h.before('let (_, maybe_outputs) = circuit.add_perm(', 'let ghost call_inputs = inputs@;')
+    h.before('let (_, maybe_outputs) = circuit.add_perm(', '''let ghost call_inputs = inputs@;
+        proof {
+            // soundness side (C08): the capacity limbs are omitted; on a chain start only the compact D=1 AIR asserts them zero
+            assert(is_first && reset ==> chain_start_capacity_zero_asserted(permutation_config)); // @@A:H_leaf_hash_chain_start_capacity_zero_asserted
+        }''')
     h.bind_tail('r_', '''proof {
         if reset && !single_chunk_seed {
             match &r_ { Ok(v) => {
